@@ -86,6 +86,11 @@ def gen_cases(rng, full):
             add("%s-%s" % (ip6(lo + w), ip6(lo)), spec("range", 6, ip6(lo + w), ip6(lo)), [(ip6(lo), True)])
     add("192.0.2.0-2001:db8::", spec("range", 4, "192.0.2.0", "2001:db8::"), [("192.0.2.5", False)])
     add("2001:db8::-192.0.2.10", spec("range", 6, "2001:db8::", "192.0.2.10"), [("192.0.2.5", False)])
+    # mixed families in either order, with the IPv6 bound below / above the IPv4-mapped block
+    for v6 in ["::", "::1", "::fffe:0:1", "::ffff:0:0:1", "1::", "ffff::"]:
+        for v4 in ["0.0.0.0", "192.0.2.10", "255.255.255.255"]:
+            add("%s-%s" % (v6, v4), spec("range", 6, v6, v4), [("1.2.3.4", False), ("::2", True), (v4, False)])
+            add("%s-%s" % (v4, v6), spec("range", 4, v4, v6), [("1.2.3.4", False), ("::2", True), (v4, False)])
     add("192.0.2.-192.0.2.10", spec("range", 4, b="192.0.2.10", okA=False), [("192.0.2.5", False)])
     add("192.0.2.0-192.0.2.", spec("range", 4, "192.0.2.0", okB=False), [("192.0.2.5", False)])
     add("192.0.2.0-", spec("range", 4, "192.0.2.0", okB=False), [("192.0.2.0", False)])
